@@ -113,7 +113,12 @@ func cmdVC(args []string) {
 	var results []*funcResult
 	for _, k := range keys {
 		t1 := time.Now()
-		r := verifyFunction(p, p.funcs[k], p.cons.funcs[k], *safety)
+		var r *funcResult
+		if strings.Contains(k, ".lemma:") {
+			r = verifyLemma(p, k, p.cons.funcs[k])
+		} else {
+			r = verifyFunction(p, p.funcs[k], p.cons.funcs[k], *safety)
+		}
 		r.genS = time.Since(t1).Seconds()
 		results = append(results, r)
 	}
